@@ -288,50 +288,60 @@ func (k *K) merkleRule(id string) {
 	k.r.Check(ok, id+"/root-equal", "MUST-PASS", fn, site,
 		"success requires the last computed sub-root to equal the consensus root",
 		"a success path does not compare the computed root with the given root — offending return at "+retPos(fi, ret))
-	// every ics23.VerifyMembership call: a false result leads to failure
+	// every ics23.VerifyMembership call (in the function or in a same-package helper it calls):
+	// a false result leads only to failure, and a failure of the helper is a failure here
 	n := 0
-	for _, b := range fi.Fn.Blocks {
-		for _, in := range b.Instrs {
-			c, isCall := in.(*ssa.Call)
-			if !isCall {
-				continue
-			}
-			f := c.Call.StaticCallee()
-			if f == nil || funcName(f) != "github.com/cosmos/ics23/go.VerifyMembership" {
-				continue
-			}
-			n++
-			atomTrue := fi.T.Of(c).String()
-			// all success returns reachable from this call must be dominated by the call being true,
-			// i.e. there is no path call -> success return avoiding the true edge. Since the call
-			// is inside a loop we check the weaker, still necessary, condition: the false edge
-			// leads only to failure returns.
-			bad := ""
-			for _, fct := range fi.facts {
-				if fct.Atom == "!"+atomTrue {
-					// blocks dominated by the false edge must not contain success returns
-					for _, r := range fi.Returns() {
-						if r.Kind != RetFail && fi.HasAtom(r.Instr.Block(), "!"+atomTrue) {
-							bad = fi.InstrPos(r.Instr)
-						}
+	for _, sc := range k.scopes(fi, 1) {
+		sfi := sc.Fi
+		for _, b := range sfi.Fn.Blocks {
+			for _, in := range b.Instrs {
+				c, isCall := in.(*ssa.Call)
+				if !isCall {
+					continue
+				}
+				f := c.Call.StaticCallee()
+				if f == nil || funcName(f) != "github.com/cosmos/ics23/go.VerifyMembership" {
+					continue
+				}
+				n++
+				atomTrue := sfi.T.Of(c).String()
+				// the call sits inside a loop, so the necessary condition checked is: the false
+				// edge leads only to failure returns (of the function that contains the call)
+				bad := ""
+				hasCheck := false
+				for _, fct := range sfi.facts {
+					if fct.Atom == atomTrue || fct.Atom == "!"+atomTrue {
+						hasCheck = true
+					}
+					if fct.Atom == "!"+atomTrue && !failsOnly(sfi, fct.If.Block().Succs[fct.Succ]) {
+						bad = sfi.InstrPos(fct.If)
 					}
 				}
-			}
-			hasCheck := false
-			for _, fct := range fi.facts {
-				if fct.Atom == atomTrue || fct.Atom == "!"+atomTrue {
-					hasCheck = true
+				// helper: its error must be branched on by the caller and the non-nil edge must only fail
+				if oc, ok := sc.Outer.(*ssa.Call); sc.Outer != nil {
+					prop := false
+					if ok {
+						et := fi.ErrTermOfCall(oc)
+						for _, fct := range fi.facts {
+							if fct.Op == "!=" && ((fct.L.String() == et && fct.R.Op == "nil") || (fct.R.String() == et && fct.L.Op == "nil")) && failsOnly(fi, fct.If.Block().Succs[fct.Succ]) {
+								prop = true
+							}
+						}
+					}
+					if !prop {
+						bad = fi.InstrPos(sc.Outer) + " (the helper's error is not propagated)"
+					}
 				}
-			}
-			k.r.Check(hasCheck && bad == "", id+"/ics23-result", "GUARD-DOM", fn, fi.InstrPos(c),
-				"the boolean result of ics23.VerifyMembership is branched on and its false edge only fails",
-				"the result of ics23.VerifyMembership is not checked (or its false edge can reach success at "+bad+")")
-			// key/value/root arguments come from the function's parameters / computed subroot
-			a := c.Call.Args // spec, root, proof, key, value
-			if len(a) >= 5 {
-				kt := fi.T.Of(a[3])
-				k.r.Check(kt.Contains(P(3).String()), id+"/ics23-key", "BIND", fn, fi.InstrPos(c),
-					"key comes from the key path parameter", "key argument "+clip(kt.String())+" does not come from the key path parameter")
+				k.r.Check(hasCheck && bad == "", id+"/ics23-result", "GUARD-DOM", fnShort(sfi), sfi.InstrPos(c),
+					"the boolean result of ics23.VerifyMembership is branched on and its false edge only fails",
+					"the result of ics23.VerifyMembership is not checked (or its false edge can reach success at "+bad+")")
+				// key/value/root arguments come from the function's parameters / computed subroot
+				a := c.Call.Args // spec, root, proof, key, value
+				if len(a) >= 5 {
+					kt := sfi.T.Of(a[3])
+					k.r.Check(kt.Contains(P(3).String()), id+"/ics23-key", "BIND", fnShort(sfi), sfi.InstrPos(c),
+						"key comes from the key path parameter", "key argument "+clip(kt.String())+" does not come from the key path parameter")
+				}
 			}
 		}
 	}
